@@ -489,6 +489,308 @@ class DomCmp(paths.Client):
         return auto
 
 
+class ScratchClient(paths.Client):
+    """auto = 'fresh' | 'dirty' | None for one scratch motion X:  fresh after copyState(X->state, .), dirty after X was passed to a repo
+    function that may overwrite it"""
+    track = 'all'
+
+    def __init__(self, fn, xkey, loop):
+        self.x, self.loop = xkey, loop
+        self.bad = []
+        self.calls = 0
+        self.inloop = {n['id'] for n in fn.walk(loop['id'])}
+        # remember only the conditions inside this loop (its own condition and the ifs in its body): they decide whether the
+        # reload is reached before the next call
+        self.relevant = set()
+        self.relevant_preds = set()
+        for n in fn.walk(loop['id']):
+            c = n.get('cond')
+            if c and n['k'] in ('IfStmt', 'WhileStmt', 'ForStmt', 'DoStmt'):
+                for x in fn.walk(c):
+                    self.relevant_preds.add(fn.fp(x['id']))
+
+    def init(self, fn):
+        return None
+
+    def on_node(self, fn, node, auto, ctx):
+        c = node.get('callee')
+        if c is None:
+            return auto
+        a = args(fn, node)
+        if c.endswith('::copyState') and len(a) == 2:
+            t = fn.strip(a[0])
+            if t is not None and t['k'] == 'MemberExpr' and t.get('name') == 'state' and key(fn, t['ch'][0]) == self.x:
+                return 'fresh'
+            return auto
+        if not node.get('crepo'):
+            return auto
+        for i in node.get('wargs') or []:
+            if i < len(a) and key(fn, a[i]) == self.x and node['id'] in self.inloop:
+                self.calls += 1
+                if auto == 'dirty':
+                    self.bad.append(('the scratch motion is handed to %s again although the previous call may have overwritten its state and it '
+                                     'was not reloaded' % c.split('::')[-1], ctx.path()))
+                return 'dirty'
+        return auto
+
+
+def r01j(rep, F):
+    rep.rule('R01j', 'scratch targets are reloaded: where a planner loop repeatedly passes a scratch motion X (whose state it filled with '
+                     'copyState(X->state, target)) to one of its own functions through a non-const pointer -- the callee may truncate '
+                     'X->state in place -- every such call is preceded, on every path, by a copyState into X->state since the previous '
+                     'call; otherwise the second step extends towards the truncated state, a zero-length motion is "validated" and the '
+                     'trees are joined through a motion nobody checked (BiTRRT::connectTrees)')
+    n = 0
+    for f in F.functions:
+        if not f.body or '/geometric/planners/' not in f.file:
+            continue
+        filled = set()
+        for c in f.walk():
+            if (c.get('callee') or '').endswith('::copyState') and len(args(f, c)) == 2:
+                t = f.strip(args(f, c)[0])
+                if t is not None and t['k'] == 'MemberExpr' and t.get('name') == 'state':
+                    k = key(f, t['ch'][0])
+                    if k:
+                        filled.add(k)
+        if not filled:
+            continue
+        for lp in [x for x in f.walk() if x['k'] in ('DoStmt', 'WhileStmt', 'ForStmt')]:
+            for xk in sorted(filled):
+                uses = [c for c in f.walk(lp['id']) if c.get('callee') and c.get('crepo') and
+                        any(i < len(args(f, c)) and key(f, args(f, c)[i]) == xk for i in (c.get('wargs') or []))]
+                uses = [c for c in uses if c['callee'].startswith('ompl::geometric::') and not c['callee'].endswith(('::add', '::nearest', '::push_back'))]
+                if not uses:
+                    continue
+                # result-driven repetition: the value the call returns is what the loop condition tests
+                cond_vars = {x.get('did') for x in f.walk(lp['cond'])} if lp.get('cond') else set()
+                driven = False
+                for c in uses:
+                    par = f.nodes.get(f.parent.get(c['id']))
+                    while par is not None and par['k'] in ('ImplicitCastExpr', 'ParenExpr', 'ExprWithCleanups'):
+                        par = f.nodes.get(f.parent.get(par['id']))
+                    if par is not None and par['k'] == 'BinaryOperator' and par.get('op') == '=':
+                        t = f.strip(par['ch'][0])
+                        if t is not None and t.get('did') in cond_vars:
+                            driven = True
+                if not driven:
+                    continue
+                # a scratch motion lives across iterations: a parameter, or a local declared outside this loop
+                did = int(xk.split('#')[1])
+                inside = any(d['did'] == did for x in f.walk(lp['id']) if x['k'] == 'DeclStmt' for d in x.get('decls', []))
+                if inside:
+                    continue
+                cl = ScratchClient(f, xk, lp)
+                paths.run_function(f, cl, F)
+                if cl.calls == 0:
+                    continue
+                n += 1
+                rep.add('R01j', f.name, 'scratch-reloaded:%s' % xk.split('#')[0], not cl.bad, f.where(lp),
+                        'reloaded before every reuse' if not cl.bad else cl.bad[0][0], cl.bad[0][1] if cl.bad else None)
+    rep.require_count('R01j', 'scratch-target loops', n, 1)
+
+
+ENUMS = ('TRAPPED', 'ADVANCED', 'REACHED')
+
+
+class SideFlagClient(paths.Client):
+    """RRTConnect: which tree does the motion tgi.xmotion belong to, and which tree does the flag tgi.start designate?
+    auto = (cur, flag, owner, pend, vals, dead)
+      cur    parity of the member startTree_ relative to the value it had when `tree` was bound (0 = designates `tree`)
+      flag   parity designated by tgi.start (tgi.start is true  <=>  the tree of that parity is the start tree), or None
+      owner  parity of the tree that holds tgi.xmotion, or None
+      pend   (result variable, owner before the call, parity of the grown tree): a growTree call whose outcome is not known yet
+      vals   ((variable, possible enumerators), ...) learned from the comparisons on this path
+      dead   the comparisons on this path contradict each other (infeasible path)"""
+    track = 'all'
+
+    def __init__(self, fn, tgi_key, member, trees):
+        self.tgi, self.member, self.trees = tgi_key, member, trees     # trees: {did: name}
+        self.first_tree = min(trees, key=lambda d: trees[d][1])
+        self.bad = []
+        self.checked = 0
+        self.relevant = set()
+        self.relevant_preds = set()
+        for n in fn.walk():
+            if n['k'] == 'BinaryOperator' and n.get('op') in ('==', '!='):
+                r = fn.strip(n['ch'][1])
+                if r is not None and r.get('name') in ENUMS:
+                    for x in fn.walk(n['id']):
+                        self.relevant_preds.add(fn.fp(x['id']))
+            # a boolean local that names such a comparison carries the same fact
+            if n['k'] == 'DeclStmt':
+                for d in n.get('decls', []):
+                    if d.get('init') and (d.get('ty') or '').replace('const ', '') == 'bool' and \
+                            any((fn.strip(y['ch'][1]) or {}).get('name') in ENUMS for y in fn.walk(d['init'])
+                                if y['k'] == 'BinaryOperator' and y.get('op') in ('==', '!=')):
+                        self.relevant.add('%s#%d' % (d['name'], d['did']))
+
+    def init(self, fn):
+        return (0, None, None, None, (), False)
+
+    def is_flag(self, fn, nid):
+        t = fn.strip(nid)
+        return t is not None and t['k'] == 'MemberExpr' and t.get('name') == 'start' and key(fn, t['ch'][0]) == self.tgi
+
+    def is_member(self, fn, nid):
+        t = fn.strip(nid)
+        return t is not None and t['k'] == 'MemberExpr' and t.get('name') == self.member
+
+    def on_node(self, fn, node, auto, ctx):
+        cur, flag, owner, pend, vals, dead = auto
+        k = node['k']
+        if k == 'DeclStmt':
+            for d in node.get('decls', []):
+                if d['did'] == self.first_tree:
+                    # a new iteration: re-base all parities on the value startTree_ has now
+                    flag = None if flag is None else flag ^ cur
+                    owner = None if owner is None else owner ^ cur
+                    pend = None if pend is None else (pend[0], None if pend[1] is None else pend[1] ^ cur, pend[2] ^ cur)
+                    cur = 0
+            return (cur, flag, owner, pend, vals, dead)
+        if k == 'BinaryOperator' and node.get('op') == '=':
+            l, r = node['ch']
+            if self.is_member(fn, l):
+                rr = fn.strip(r)
+                if rr is not None and rr['k'] == 'UnaryOperator' and rr.get('op') == '!' and self.is_member(fn, rr['ch'][0]):
+                    return (cur ^ 1, flag, owner, pend, vals, dead)
+                return (cur, None, None, None, vals, dead) if False else (cur, flag, owner, pend, vals, dead)
+            if self.is_flag(fn, l):
+                rr = fn.strip(r)
+                if self.is_member(fn, r):
+                    return (cur, cur, owner, pend, vals, dead)
+                if rr is not None and rr['k'] == 'UnaryOperator' and rr.get('op') == '!' and self.is_flag(fn, rr['ch'][0]):
+                    return (cur, None if flag is None else flag ^ 1, owner, pend, vals, dead)
+                return (cur, None, owner, pend, vals, dead)
+        if (node.get('callee') or '').endswith('::growTree'):
+            a = args(fn, node)
+            t = fn.strip(a[0]) if a else None
+            q = None
+            if t is not None and t['k'] == 'DeclRefExpr' and t.get('did') in self.trees:
+                q = self.trees[t['did']][2]
+            # result variable
+            var = None
+            par = fn.nodes.get(fn.parent.get(node['id']))
+            while par is not None and par['k'] in ('ImplicitCastExpr', 'ParenExpr', 'ExprWithCleanups'):
+                par = fn.nodes.get(fn.parent.get(par['id']))
+            if par is not None and par['k'] == 'BinaryOperator' and par.get('op') == '=':
+                var = key(fn, par['ch'][0])
+            elif par is not None and par['k'] == 'DeclStmt':
+                for d in par.get('decls', []):
+                    if d.get('init') and any(x['id'] == node['id'] for x in fn.walk(d['init'])):
+                        var = '%s#%d' % (d['name'], d['did'])
+            if pend is not None and pend[1] != pend[2]:
+                owner = None                       # an earlier outcome was never looked at
+            if q is None or var is None:
+                return (cur, flag, None, None, vals, dead)
+            vals = tuple(x for x in vals if x[0] != var)
+            if owner == q:
+                return (cur, flag, owner, None, vals, dead)
+            return (cur, flag, owner, (var, owner, q), vals, dead)
+        # reads of the flag in a condition: the invariant must hold
+        if k in ('IfStmt', 'ConditionalOperator') and node.get('cond') and self.is_flag(fn, node['cond']) and not dead:
+            self.checked += 1
+            alts = [owner] if pend is None else [pend[1], pend[2]]
+            if flag is not None and all(o is not None for o in alts) and any(o != flag for o in alts):
+                which = 'the other tree' if pend is None else 'the other tree when the last growTree call was %s' % (
+                    'TRAPPED' if alts[0] != flag else 'not TRAPPED')
+                self.bad.append(('tgi.start is read here as "tgi.xmotion belongs to the start tree", but on this path tgi.xmotion belongs to %s: '
+                                 'a goal-tree branch can be taken for a start-tree motion (approximate solution / connection endpoints)' % which,
+                                 ctx.path()))
+        return (cur, flag, owner, pend, vals, dead)
+
+    def learn(self, fn, node, value, auto, ctx):
+        cur, flag, owner, pend, vals, dead = auto
+        if node.get('k') != 'BinaryOperator' or node.get('op') not in ('==', '!='):
+            return auto
+        l, r = fn.strip(node['ch'][0]), fn.strip(node['ch'][1])
+        if l is None or r is None or r.get('name') not in ENUMS or l['k'] != 'DeclRefExpr':
+            return auto
+        var = '%s#%d' % (l.get('name'), l.get('did'))
+        eq = value if node['op'] == '==' else (not value)
+        old = dict(vals).get(var, frozenset(ENUMS))
+        new = (old & {r['name']}) if eq else (old - {r['name']})
+        if not new:
+            return (cur, flag, owner, pend, vals, True)
+        vals = tuple(x for x in vals if x[0] != var) + ((var, frozenset(new)),)
+        if pend is not None and pend[0] == var:
+            if new <= {'TRAPPED'}:
+                owner, pend = pend[1], None
+            elif 'TRAPPED' not in new:
+                owner, pend = pend[2], None
+        return (cur, flag, owner, pend, vals, dead)
+
+
+def r01k(rep, F):
+    rep.rule('R01k', 'RRTConnect side flag: growTree assigns tgi.xmotion exactly on the paths that do not return TRAPPED (summary, checked '
+                     'over its CFG); in solve(), tracking relative to the member startTree_ which tree tgi.start designates (set from '
+                     'startTree_, toggled by !tgi.start) and which tree holds tgi.xmotion (the grown tree unless the call was TRAPPED; '
+                     'outcomes learned from the comparisons with TRAPPED / ADVANCED / REACHED), every condition that reads tgi.start sees '
+                     'flag and owner agree -- the approximate solution and the connection endpoints are chosen by that flag')
+    fs = [f for f in F.by_name.get('ompl::geometric::RRTConnect::growTree', []) if f.body]
+    so = [f for f in F.by_name.get('ompl::geometric::RRTConnect::solve', []) if f.body]
+    if not fs or not so:
+        raise AnalysisBroken('R01k: RRTConnect::growTree / solve vanished')
+    g, f = fs[0], so[0]
+    # summary of growTree
+    class Sum(paths.Client):
+        track = 'none'
+
+        def __init__(s_):
+            s_.bad = []
+            s_.rets = 0
+
+        def init(s_, fn):
+            return False
+
+        def on_node(s_, fn, node, auto, ctx):
+            if node['k'] == 'BinaryOperator' and node.get('op') == '=':
+                t = fn.strip(node['ch'][0])
+                if t is not None and t['k'] == 'MemberExpr' and t.get('name') == 'xmotion':
+                    return True
+            return auto
+
+        def at_exit(s_, fn, ret, auto, ctx):
+            if ret is None or not ret['ch']:
+                return
+            names = {x.get('name') for x in fn.walk(ret['ch'][0]) if x['k'] == 'DeclRefExpr'}
+            s_.rets += 1
+            if 'TRAPPED' in names and auto:
+                s_.bad.append('a path returns TRAPPED after assigning tgi.xmotion')
+            if 'TRAPPED' not in names and not auto:
+                s_.bad.append('a path returns %s without assigning tgi.xmotion' % sorted(names & set(ENUMS)))
+    sm = Sum()
+    paths.run_function(g, sm, F)
+    rep.add('R01k', g.name, 'xmotion-assigned-iff-not-trapped', not sm.bad and sm.rets >= 3, g.where(g.nodes[g.body]),
+            'tgi.xmotion is assigned exactly when the result is not TRAPPED (%d returns)' % sm.rets if not sm.bad else sm.bad[0])
+    # solve
+    tgi = None
+    trees = {}
+    for x in f.walk():
+        if x['k'] == 'DeclStmt':
+            for d in x.get('decls', []):
+                if 'TreeGrowingInfo' in (d.get('ty') or ''):
+                    tgi = '%s#%d' % (d['name'], d['did'])
+                if 'TreeData' in (d.get('ty') or '') and d.get('init'):
+                    ini = f.strip(d['init'])
+                    if ini is not None and ini['k'] == 'ConditionalOperator' and (f.strip(ini['cond']) or {}).get('name') == 'startTree_':
+                        trees[d['did']] = (d['name'], f.line(x), None)
+    if tgi is None or len(trees) != 2:
+        raise AnalysisBroken('R01k: RRTConnect::solve no longer binds tree / otherTree from startTree_')
+    # parity of each tree variable: number of toggles of startTree_ between the first binding and this one (source order)
+    first = min(trees.values(), key=lambda t: t[1])[1]
+    for did, (nm, ln, _) in list(trees.items()):
+        togg = len([x for x in f.walk() if x['k'] == 'BinaryOperator' and x.get('op') == '=' and (f.strip(x['ch'][0]) or {}).get('name') == 'startTree_'
+                    and first <= f.line(x) < ln])
+        trees[did] = (nm, ln, togg % 2)
+    cl = SideFlagClient(f, tgi, 'startTree_', trees)
+    paths.run_function(f, cl, F)
+    if cl.checked == 0:
+        raise AnalysisBroken('R01k: no condition reads tgi.start in RRTConnect::solve')
+    rep.add('R01k', f.name, 'side-flag-designates-owner', not cl.bad, f.where(f.nodes[f.body]),
+            'tgi.start agrees with the tree that holds tgi.xmotion at every read (%d reads on the explored paths)' % cl.checked
+            if not cl.bad else cl.bad[0][0], cl.bad[0][1] if cl.bad else None)
+
+
 def run(rep):
     units = P.geometric_units() + P.multilevel_units() + P.base_units()
     F = facts.load_units(units)
@@ -513,3 +815,5 @@ def run(rep):
     r01h(rep, F)
     from rules import c02
     c02.r02f(rep, F, files_pat='/geometric/planners/', rule='R01i', frozen=10)
+    r01j(rep, F)
+    r01k(rep, F)
